@@ -8,6 +8,12 @@ From Coq Require Import List NArith Bool.
 From GY Require Import Model.Schema.
 Import ListNotations.
 
+Fixpoint opt_map {A B} (f : A -> option B) (l : list A) : option (list B) :=
+  match l with
+  | [] => Some []
+  | x :: r => match f x, opt_map f r with Some y, Some ys => Some (y :: ys) | _, _ => None end
+  end.
+
 Section Inline.
 Variable SC : schema.
 
@@ -74,22 +80,21 @@ Definition inline_stmts (m : module) (scopes : list (list dnode)) (body : list d
   | _ => None
   end.
 
+Definition inline_augs (m : module) : option (list (str * list dnode)) :=
+  opt_map (fun a => option_map (fun b' => (fst a, b')) (inline_stmts m [m_body m] (snd a))) (m_augments m).
+
 Definition inline_module (m : module) : option module :=
-  match inline_stmts m [] (m_body m) with
-  | None => None
-  | Some body' =>
-    match fold_right (fun a acc =>
-                        match acc, inline_stmts m [m_body m] (snd a) with
-                        | Some l, Some b' => Some ((fst a, b') :: l)
-                        | _, _ => None
-                        end) (Some []) (m_augments m) with
-    | None => None
-    | Some augs' =>
+  match inline_stmts m [] (m_body m), inline_augs m with
+  | Some body', Some augs' =>
       Some {| m_name := m_name m; m_prefix := m_prefix m; m_ns := m_ns m; m_belongs := m_belongs m;
               m_imports := m_imports m; m_includes := m_includes m; m_body := body';
               m_augments := augs'; m_deviations := m_deviations m |}
-    end
+  | _, _ => None
   end.
+
+(* the whole module set: every statement list of every module and submodule (data, rpc, notification and grouping
+   bodies are all below m_body) and every augment body; fails if the expansion fails anywhere *)
+Definition inline_schema : option schema := opt_map inline_module SC.
 
 End Inline.
 
